@@ -57,6 +57,8 @@ class _Gen(object):
             v = self.draw(st.integers(-(1 << 31), (1 << 31) - 1))
         if v >= 0 and self.chance(6):
             return hex(v)
+        if self.chance(1):
+            return self.pick(("99999999999999999999999", "4294967296", "-9223372036854775808", "0xffffffffffffffffff", "18446744073709551615"))
         return str(v)
 
     # every production returns (tokens, new depth estimate)
@@ -393,6 +395,12 @@ def render(toks, style):
     return "".join(out)
 
 
+# byte strings made of variable-length integers: short ones, 9- and 10-byte ones (the 'varint too big' boundary), small bytes
+VARINT_HEAVY = st.lists(st.one_of(st.binary(min_size=1, max_size=1),
+                                  st.integers(0, 300).map(lambda v: bytes([v & 0x7f | 0x80, v >> 7]) if v > 127 else bytes([v])),
+                                  st.sampled_from([b"\xff" * 8 + b"\x7f", b"\x80" * 9 + b"\x01", b"\xff" * 9 + b"\x01", b"\xff" * 10,
+                                                   b"\x80" * 9 + b"\x00", b"\xff" * 8 + b"\x00", b"\x00", b"\x01", b"\x00\x00\x00\x01"])),
+                         min_size=0, max_size=12).map(lambda parts: b"".join(parts)[:64])
 GROWTH = [[1, 1.5], [2, 2.0], [1024, 1.5], [1, 1.1], [3, 1.01], [1, 3.0], [16, 1.25]]
 
 
@@ -407,7 +415,7 @@ def cases(draw, mutate_percent=15):
     inputs = {}
     for name in ("x", "data", "z"):
         if name in g.ins or draw(st.integers(0, 19)) == 0:
-            inputs[name] = draw(st.one_of(st.binary(min_size=0, max_size=64), st.binary(min_size=20, max_size=64))).hex()
+            inputs[name] = draw(st.one_of(st.binary(min_size=0, max_size=64), st.binary(min_size=20, max_size=64), VARINT_HEAVY)).hex()
     bits = draw(st.sampled_from([32, 64]))
     stack = draw(st.sampled_from([1024] * 14 + [16, 16, 8, 4, 3, 2, 1]))
     recursion = draw(st.sampled_from([1024] + [64] * 8 + [10, 10, 6, 4, 3, 2, 1]))
